@@ -465,15 +465,37 @@ class SpooledStringIO(SpooledIOBase):
         return self.tell()
 
     def readline(self, length=None):
+        """Returns the next line: up to and including the next "\\n" (and
+        no other character, like io.StringIO), at most length characters"""
         self._checkClosed()
-        ret = self.buffer.readline(length).decode('utf-8')
-        self._tell = self.tell() + len(ret)
-        return ret
+        limit = -1 if length is None else length
+        line = ''
+        while limit < 0 or len(line) < limit:
+            chunk = self.read(READ_CHUNK_SIZE if limit < 0 else
+                              min(READ_CHUNK_SIZE, limit - len(line)))
+            if not chunk:
+                break
+            end = chunk.find('\n') + 1
+            if end:
+                # hand what follows the line end back to the reader
+                reader = self.buffer.reader
+                reader.charbuffer = chunk[end:] + reader.charbuffer
+                self._tell -= len(chunk) - end
+                line += chunk[:end]
+                break
+            line += chunk
+        return line
 
     def readlines(self, sizehint=0):
-        ret = [x.decode('utf-8') for x in self.buffer.readlines(sizehint)]
-        self._tell = self.tell() + sum(len(x) for x in ret)
-        return ret
+        lines = []
+        total = 0
+        for line in iter(self.readline, ''):
+            lines.append(line)
+            total += len(line)
+            if sizehint and 0 < sizehint <= total:
+                break
+        return lines
+
 
     @property
     def buffer(self):
